@@ -412,7 +412,27 @@ class C16(PropBase):
             out.append(self.g_run(rng))
         for _ in range(30 if q else 600):
             out.append(self.g_run_fold(rng))
+        # a timestamp given on the command line (`--price.before` of the given-time price lookup) follows the same rule as
+        # one written in the journal: without an offset it is read in the configured journal zone.  The class is C07's
+        # (price entries within the offset-wide window between the two readings); it is run and judged by C07's plug-in
+        for _ in range(40 if q else 800):
+            c = self.g_given_zone(rng)
+            if c is not None:
+                out.append(c)
         return out
+
+    def g_given_zone(self, rng):
+        import c07
+        for _ in range(60):
+            c = c07.PROP.gen_case(rng, "given-edge")
+            off = (c["cfg"].get("tz") or {}).get("offset", "+00:00")
+            before = (c["cfg"].get("price") or {}).get("before", "")
+            offset_less = "T" not in before or not (before.endswith("Z") or before[-6] in "+-")
+            if c["lookup"] == "given-time" and off != "+00:00" and offset_less:
+                c["delegate"] = "c07"
+                c["kind"] = "given-time:journal-zone"
+                return c
+        return None
 
     def g_run_fold(self, rng):
         """transactions inside the repeated hour of a fall-back of the report zone, the later instant showing the earlier
